@@ -93,6 +93,8 @@ def mutate(rng, t):
         return [6, (t[1] + rng.choice([1, -1, 2, 0x80000000])) & 0xffffffff]
     if t[0] == 9 and t[1] and rng.random() < 0.5:
         return [9, [(t[1][0] + 1) & 0xffffffff] + t[1][1:]]
+    if t[0] in (7, 8, 9) and rng.random() < 0.6:      # a vector atom that is a proper prefix / an extension of the original
+        return [t[0], rng.choice([t[1][:-1], t[1] + t[1][:1], t[1] + [0], t[1][1:]])] if t[1] else [t[0], [0]]
     if t[0] == 0 and len(t) > 1 and rng.random() < 0.7:
         i = rng.randrange(1, len(t))
         r = rng.random()
